@@ -153,7 +153,7 @@ class YowProtocolLayer(YowLayer):
     def processIqRegistry(self, protocolTreeNode):
         if protocolTreeNode.tag == "iq":
             iq_id = protocolTreeNode["id"]
-            if iq_id in self.iqRegistry:
+            if iq_id in self.iqRegistry and protocolTreeNode["type"] in ("result", "error"):
                 originalIq, successClbk, errorClbk = self.iqRegistry[iq_id]
                 del self.iqRegistry[iq_id]
 
